@@ -1235,27 +1235,10 @@ func (c *Ctx) ruleEachKey() {
 		return
 	}
 	// the loop containing the walk: innermost natural loop whose body holds the walk's block
-	var loop map[*ssa.BasicBlock]bool
-	var header *ssa.BasicBlock
-	for _, l := range loopsOf(f) {
-		if l[walk.Block()] && (loop == nil || len(l) < len(loop)) {
-			loop = l
-		}
-	}
+	header, loop := innermostLoop(f, walk.Block())
 	if loop == nil {
 		c.ob("R-EACHKEY", "Generate:walk-in-loop", walk.Pos(), false, "the walk is not inside a loop over the keys")
 		return
-	}
-	for b := range loop {
-		isHeader := false
-		for _, p := range b.Preds {
-			if !loop[p] {
-				isHeader = true
-			}
-		}
-		if isHeader {
-			header = b
-		}
 	}
 	// a path from the header back to the header (a full iteration) that avoids the walk's block
 	skip := false
@@ -1636,12 +1619,7 @@ func (c *Ctx) ruleMergeOnce() {
 			return
 		}
 		// inside a loop, on a loop-invariant node?
-		var loop map[*ssa.BasicBlock]bool
-		for _, l := range loopsOf(f) {
-			if l[call.Block()] && (loop == nil || len(l) < len(loop)) {
-				loop = l
-			}
-		}
+		_, loop := innermostLoop(f, call.Block())
 		if loop == nil {
 			return
 		}
